@@ -5,7 +5,7 @@ import os
 VERIF = os.path.dirname(os.path.dirname(os.path.abspath(__file__)))
 
 HOOK_COMMITS = ["b9d4bd0", "034d117", "c156e58"]
-FIX_COMMITS = ["d307ba7", "1245628", "e2789dc", "37d0178", "8d97c84", "106b808", "4ace02c", "398b1f9", "8e20502", "758bf79", "bcb9d1c", "736daa9", "680eb52"]
+FIX_COMMITS = ["d307ba7", "1245628", "e2789dc", "37d0178", "8d97c84", "106b808", "4ace02c", "398b1f9", "8e20502", "758bf79", "bcb9d1c", "736daa9", "680eb52", "15107c2"]
 
 TRUST = ("TLC 1.8 and the TLA+ reference modules (cross-validated against gcc 12 / gfortran / git where an "
          "external tool exists); the Python harness only materialises TLC-generated cases, reformats traces and "
@@ -135,6 +135,18 @@ CHECKS["C10"] = dict(
          "remaining file, get_setmap and the enumerated code base are compared with the no-exclusion expectation; -x and "
          "[codebase] exclude are compared through codebasin, cbi-tree and cbi-cov. Sampled, not exhaustive.",
     design="3/C10")
+
+CHECKS["C15"] = dict(
+    technique="TLA+ abstract file system with realpath semantics (FileSys) and an alias-spelling generator (GenAlias) "
+              "checked by TLC; TLC-generated link sets and spellings replayed on GenScen scenarios through "
+              "load_database + finder.find and compared with the canonical twin",
+    text="TLC verifies for all 192 link sets that every generated alias spelling (through file links, directory links, "
+         "links to an ancestor / outside / to a link, '.' and 'dir/..' detours incl. through directory links) resolves to "
+         "its canonical target and that lexical normalisation is not a substitute; each simulated scenario is decorated "
+         "with a link set, its compile commands and -I directories are spelled through those aliases, and attribution on "
+         "the physical files, get_setmap, enumeration/membership and the tree report's directory figures are compared "
+         "with the canonical twin given by the reference. Sampled pairs, not exhaustive.",
+    design="3/C15")
 
 PENDING_REASON = "check not built yet (build in progress; see DESIGN.md section 7)"
 
